@@ -27,9 +27,9 @@ impl DecreasePosition {
 //@ sub (?s)assert\(\s*self\.size_delta_usd <= \*self\.position\.size_in_usd_mut\(\)\s*\); => assert(self.size_delta_usd@ <= self.position.size_in_usd@);
 //@ sub (?s)assert\(\s*self\.withdrawable_collateral_amount <= \*self\.position\.collateral_amount_mut\(\)\s*\); => assert(self.withdrawable_collateral_amount@ <= self.position.collateral_amount@);
 //@ cut_after self.position.on_decreased()?; :: Ok(DecreaseOutcome { should_remove, size_delta_usd: self.size_delta_usd, execution })
-//@ loop 1: invariant _k21 <= 2, self.params == prm1, self.size_delta_usd == sdu1, self.position.mkt == mkt1, self.position.size_in_usd == usd1, self.position.size_in_tokens == tok1, self.position.collateral_amount == col1, self.position.long == old(self).position.long, self.position.collateral_long == old(self).position.collateral_long, decreases 2 - _k21,
+//@ loop 1: invariant _k21 <= 2, self.params == prm1, self.size_delta_usd == sdu1, self.position.mkt == mkt1, self.position.size_in_usd == usd1, self.position.size_in_tokens == tok1, self.position.collateral_amount == col1, self.position.long == old(self).position.long, self.position.collateral_long == old(self).position.collateral_long, self.position.tb_log == tb1, self.position.borrowing_factor == bf1, decreases 2 - _k21,
 //@ before self.position.update_open_interest( :: proof { if old(self).position.size_in_usd@ > 0 { lemma_sdt_zero(old(self).position.long, old(self).position.size_in_tokens@, old(self).position.size_in_usd@); } }
-//@ before let _arr21 = [true, false]; :: let ghost mkt1 = self.position.mkt; let ghost usd1 = self.position.size_in_usd; let ghost tok1 = self.position.size_in_tokens; let ghost col1 = self.position.collateral_amount; let ghost sdu1 = self.size_delta_usd; let ghost prm1 = self.params;
+//@ before let _arr21 = [true, false]; :: let ghost mkt1 = self.position.mkt; let ghost usd1 = self.position.size_in_usd; let ghost tok1 = self.position.size_in_tokens; let ghost col1 = self.position.collateral_amount; let ghost sdu1 = self.size_delta_usd; let ghost prm1 = self.params; let ghost tb1 = self.position.tb_log; let ghost bf1 = self.position.borrowing_factor;
     fn execute(&mut self) -> (r: Result<DecreaseOutcome, E>)
         requires pos_wf(old(self).position),
             // established by try_new (DecreasePositionFlags::init caps or rejects) and kept by construction
@@ -53,6 +53,9 @@ impl DecreasePosition {
                 &&& oit(p1.mkt, l, !c) == oit(p0.mkt, l, !c) && oit(p1.mkt, !l, true) == oit(p0.mkt, !l, true) && oit(p1.mkt, !l, false) == oit(p0.mkt, !l, false)
                 &&& col(p1.mkt, l, !c) == col(p0.mkt, l, !c) && col(p1.mkt, !l, true) == col(p0.mkt, !l, true) && col(p1.mkt, !l, false) == col(p0.mkt, !l, false)
                 &&& p1.long == l && p1.collateral_long == c
+                // BORROWING ORDER (C13): the total borrowing is updated exactly once, while the position STILL HOLDS its old size and
+                // borrowing factor, and with exactly the size and factor the position ends with
+                &&& p1.tb_log@ == p0.tb_log@.push(TbUpdate { prev_size: p0.size_in_usd, prev_factor: p0.borrowing_factor, next_size: p1.size_in_usd, next_factor: p1.borrowing_factor })
             }),
 //@body
 }
